@@ -814,10 +814,13 @@ class Interp:
             except Exception:
                 extra = {}
             self.consts = dict(extra, **saved_c)
+            saved_root = self.file_root
+            self.file_root = (saved_root[0], rel_, None)       # free helpers / `use` declarations are resolved relative to the helper's own file
             try:
                 return self._run_fn_body(ast, env)
             finally:
                 self.consts = saved_c
+                self.file_root = saved_root
         return self._run_fn_body(ast, env)
 
     def _run_fn_body(self, ast, env):
@@ -1026,6 +1029,11 @@ class Interp:
         if e["op"] == "-":
             if isinstance(v, int):
                 return -v
+            if isinstance(v, VStruct) and getattr(self, "file_root", None):
+                # `-x` on a crate struct: the real body of its `Neg` impl, on a copy (neg takes self by value)
+                rv = self.inline_method(_deep_copy(v), "neg", [], type_name="__opassign__")
+                if rv is not NotImplemented:
+                    return rv
             return -as_poly(v)
         if e["op"] == "!":
             if isinstance(v, bool):
@@ -1962,6 +1970,8 @@ class Interp:
         change under test, may live in another file of the crate): the unique fn whose path ends in `::short`"""
         root = self.file_root[0]
         files = list(getattr(self, "helper_files", ()) or ())
+        if want_recv and self.file_root[1] not in files:
+            files.append(self.file_root[1])         # trait impls of the unit's own file (`impl Neg for T`, `impl AddAssign for T`)
         if not want_recv:
             # a free helper fn is typically placed in the unit's own file or in a parent module (`use super::helper`)
             rel0 = self.file_root[1]
